@@ -72,20 +72,61 @@ Definition add (force : bool) (a : acct) (b : block) : acct * result :=
     end.
 
 (* rebuild of one account after a momentum: new_stable = the new confirmed chain (newest first);
-   uncommitted = the old manager's blocks above the new stable height, in ascending order, re-added one by one on a
-   fresh manager; None = manager.Add refused a block ("previous doesn't match"): rebuild returns early *)
-Fixpoint readd (rc : list block) (l : list block) : option (list block) :=
+   uncommitted = the old manager's blocks above the new stable height, in ascending order, re-added on a fresh manager
+   TRANSACTION by transaction: a contract's batch (its ContractSend descendants and the ContractReceive that carries
+   them) is one transaction of the manager. The loop skips the contract sends (pend: the sends skipped since the last
+   other block, newest first) and re-adds the block that closes the batch with its descendants: memdbManager.Add
+   compares the previous of the FIRST commit of the transaction (the lowest send of the batch, or the block itself)
+   with the manager's frontier. None = manager.Add refused ("previous doesn't match"): rebuild returns early.
+   The descendants of a contract receive in a manager are the contract sends directly below it (Add inserts the
+   commits of one transaction consecutively and a ContractSend only ever enters as a descendant). *)
+Fixpoint readd (rc : list block) (pend : list block) (l : list block) : option (list block) :=
   match l with
   | [] => Some rc
-  | b :: r => if ident_eqb (prev_of b) (frontier_id rc) then readd (b :: rc) r else None
+  | b :: r =>
+      if bsend b then readd rc (b :: pend) r
+      else if ident_eqb (prev_of (last pend b)) (frontier_id rc) then readd (b :: pend ++ rc) [] r else None
   end.
+Definition top_closed (rc : list block) : bool := match rc with [] => true | b :: _ => negb (bsend b) end.
 Definition rebuild (new_stable : list block) (old : acct) : option acct :=
   let h := snd (frontier_id new_stable) in
   let uncommitted := filter (fun b => h <? bheight b) (rev (rchain old)) in
-  match readd new_stable uncommitted with
+  (* a momentum that confirmed only a part of a batch: the transaction of the batch's receive starts below the new
+     stable frontier, Add refuses it *)
+  if negb (top_closed new_stable) && existsb (fun b => negb (bsend b)) uncommitted then None else
+  match readd new_stable [] uncommitted with
   | Some rc => Some (mkAcct rc (length new_stable))
   | None => None
   end.
+
+(* the run of contract sends on top of a chain *)
+Fixpoint firstn_sends (rc : list block) : list block :=
+  match rc with b :: r => if bsend b then b :: firstn_sends r else [] | [] => [] end.
+
+(* the rebuild before the fix (84ffe66): every uncommitted block re-added as a transaction of its own, the contract
+   sends too; the receive of a batch then came with its descendants again and was refused. A contract receive is told
+   from a block without descendants by the contract send below it. *)
+Fixpoint readd_per_block (rc : list block) (l : list block) : option (list block) :=
+  match l with
+  | [] => Some rc
+  | b :: r =>
+      (* first commit of the block's transaction: the block itself, or the lowest of the sends it carries *)
+      let first := if bsend b then b else last (firstn_sends rc) b in
+      if ident_eqb (prev_of first) (frontier_id rc) then readd_per_block (b :: rc) r else None
+  end.
+Definition rebuild_per_block (new_stable : list block) (old : acct) : option acct :=
+  let h := snd (frontier_id new_stable) in
+  let uncommitted := filter (fun b => h <? bheight b) (rev (rchain old)) in
+  match readd_per_block new_stable uncommitted with
+  | Some rc => Some (mkAcct rc (length new_stable))
+  | None => None
+  end.
+
+(* a momentum that confirms the next k pooled blocks of an account whose pooled chain consists of whole batches, and
+   confirms whole batches (filter_to_commit below): neither the pooled chain nor the new confirmed chain ends with a
+   contract send *)
+Definition aligned (a : acct) (k : nat) : Prop :=
+  top_closed (rchain a) = true /\ top_closed (skipn (length (rchain a) - (sh a + k)) (rchain a)) = true.
 
 Inductive op := OAdd (force : bool) (b : block) | OMomentum (k : nat) | ODelete (j : nat).
 
